@@ -19,6 +19,8 @@ import Verif.Model.Constraints
   * `permitted_refuted` (historic, D8), `permitted_partial`, `rootdrop_refuted` (historic)
   * `v4mapped_refuted`, `leadingdot_refuted`   divergences of the matchers that remain
   * `validate_total`        no name makes the engine abort on subtrees a parsed certificate can carry
+  * `all_paths`             the three functions that reach the CAS validate first (source-derived table)
+  * `divergence_only_malformed`, `unparsable_dns_refuted`   O1: engine and verifier part only on malformed names
 -/
 namespace Verif.Constraints
 open Verif Verif.Str
@@ -1054,5 +1056,93 @@ theorem guarded_spec (l : List Step) (h : guarded l = true) :
 /-- an unguarded order is recognised (what a moved call site would look like) -/
 example : guarded [.casCreate, .validate true] = false := by decide
 example : guarded [.validate false, .casCreate] = false := by decide
+
+/-! ## 11. O1: the only names on which the engine and today's verifier part are malformed ones -/
+
+/-- a domain-like subtree without a leading period after its own optional one -/
+def cleanC (c : Str) : Bool := !leadingDot (if c.head? = some 46 then c.tail else c)
+
+/-- names a go1.23 verifier can parse: no dNSName it refuses, no leading period in an e-mail
+    domain or URI host -/
+structure NamesWF (n : Names) : Prop where
+  dns : ∀ d ∈ n.dns, (strictLabels d).isSome = true
+  email : ∀ a ∈ n.emails, ∀ mb, parseMailbox a = some mb → leadingDot mb.domain = false
+  uriHost : ∀ u ∈ n.uris, leadingDot u.host = false
+  uriSplit : ∀ u ∈ n.uris, ∀ h, u.split = some h → leadingDot h = false
+
+/-- subtrees as `x509.ParseCertificate` hands them over (its own checks refuse a second leading
+    period), and no IPv4-mapped IPv6 subtree (finding F3) -/
+structure LevelWF (l : Level) : Prop where
+  dns : ∀ c, c ∈ l.pDNS ∨ c ∈ l.xDNS → cleanC c = true
+  uri : ∀ c, c ∈ l.pURI ∨ c ∈ l.xURI → cleanC c = true
+  email : ∀ c, c ∈ l.pEmail ∨ c ∈ l.xEmail →
+    cleanC c = true ∧ ∀ cm, parseMailbox c = some cm → leadingDot cm.domain = false
+  ip : ∀ c, c ∈ l.pIP ∨ c ∈ l.xIP → normalizeIP c.ip = c.ip
+
+theorem leadingDot_of_strict (d : Str) (h : (strictLabels d).isSome = true) : leadingDot d = false := by
+  unfold strictLabels at h
+  cases hd : leadingDot d
+  · rfl
+  · simp [hd] at h
+
+theorem parse_eq_spec (a : Str) (h : ∀ mb, parseMailbox a = some mb → leadingDot mb.domain = false) :
+    parseMailbox a = specParseMailbox a := by
+  unfold specParseMailbox
+  cases hp : parseMailbox a with
+  | none => rfl
+  | some mb => simp [h mb hp]
+
+theorem matchEmail_eq_spec (mb : Mailbox) (c : Str) (hd : leadingDot mb.domain = false)
+    (hc : cleanC c = true) (hp : ∀ cm, parseMailbox c = some cm → leadingDot cm.domain = false) :
+    matchEmail mb c = specMatchEmail mb c := by
+  unfold matchEmail specMatchEmail
+  rw [← parse_eq_spec c hp]
+  split
+  · rfl
+  · exact matchDomain_eq_spec _ _ hd (by simpa [cleanC] using hc)
+
+theorem agree_of_wf (chain : List Level) (n : Names) (hn : NamesWF n)
+    (hl : ∀ l ∈ chain, LevelWF l) : Agree chain n where
+  dnsWF := hn.dns
+  dns := fun d hd l hlm c hc =>
+    matchDomain_eq_spec d c (leadingDot_of_strict d (hn.dns d hd)) (by simpa [cleanC] using (hl l hlm).dns c hc)
+  ip := fun i _ l hlm c hc => matchIP_eq_spec i c ((hl l hlm).ip c hc)
+  emailP := fun a ha => parse_eq_spec a (hn.email a ha)
+  email := fun a ha mb hp l hlm c hc =>
+    matchEmail_eq_spec mb c (hn.email a ha mb hp) ((hl l hlm).email c hc).1 ((hl l hlm).email c hc).2
+  uri := fun u hu l hlm c hc =>
+    matchURI_eq_spec u c (hn.uriHost u hu) (hn.uriSplit u hu) (by simpa [cleanC] using (hl l hlm).uri c hc)
+
+/-- **divergence_only_malformed** (O1 made precise): on names today's verifier can parse, and
+    subtrees as a parsed certificate carries them (no IPv4-mapped IPv6 subtree), everything
+    `constraints.New(chain...).Validate` allows is acceptable under RFC 5280 to every certificate
+    of the chain. Read contrapositively: a certificate the CA signs and `x509.Verify` refuses
+    for its names has a malformed name (or meets finding F3). -/
+theorem divergence_only_malformed (chain : List Level) (n : Names) (hn : NamesWF n)
+    (hl : ∀ l ∈ chain, LevelWF l) :
+    validateF (NewF chain) n = .allow → specAccept chain n = true :=
+  engine_sound chain n (agree_of_wf chain n hn hl)
+
+/-- … and the divergence is real. The engine looks at a name only when a subtree *of its kind*
+    exists: under a chain with IP subtrees only, the dNSName `a..b` is never parsed and the
+    certificate is signed; the verifier parses every dNSName as soon as any constraint exists. -/
+theorem unparsable_dns_refuted :
+    ¬ ∀ (chain : List Level) (n : Names), validateF (NewF chain) n = .allow → specAccept chain n = true := by
+  intro h
+  exact absurd (h [{ xIP := [⟨[10,0,0,0],[255,0,0,0]⟩] }] { dns := [s "a..b"] } (by decide)) (by decide)
+
+/-- hypotheses of `divergence_only_malformed` hold for the example chain and names -/
+example : NamesWF okNames where
+  dns := by decide
+  email := by intro a ha; cases ha
+  uriHost := by intro u hu; cases hu
+  uriSplit := by intro u hu; cases hu
+example : ∀ l ∈ okChain, LevelWF l := by
+  intro l hl
+  simp [okChain] at hl
+  rcases hl with rfl | rfl | rfl <;>
+    exact ⟨by intro c hc; simp at hc <;> (try subst hc) <;> decide,
+           by intro c hc; simp at hc, by intro c hc; simp at hc,
+           by intro c hc; simp at hc <;> (try subst hc) <;> decide⟩
 
 end Verif.Constraints
